@@ -142,17 +142,23 @@ def injectOrgID (c : Ctx) (o : Bytes) : Ctx := (.org, o) :: c
 def extractOrgID (c : Ctx) : Except Err Bytes :=
   match c.value .org with | none => .error .noOrgID | some o => .ok o
 
-/-- `InjectOrgIDIntoHTTPRequest`: `hdr = []` models an absent (or empty) header. Returns new header. -/
-def injectHTTP (c : Ctx) (hdr : Bytes) : Except Err Bytes :=
+/-- `http.Header.Get`: the first value of the header, `""` when the header is absent. The header
+is the list of its values (`[]` = absent, `[[]]` = present with one empty value, several values
+possible). -/
+def headerGet (hdr : List Bytes) : Bytes := hdr.headD []
+
+/-- `InjectOrgIDIntoHTTPRequest`: compares with `Header.Get` (an absent header and one whose first
+value is empty look the same) and then `Header.Set`s — the header afterwards has exactly one value. -/
+def injectHTTP (c : Ctx) (hdr : List Bytes) : Except Err (List Bytes) :=
   match extractOrgID c with
   | .error e => .error e
-  | .ok o => if hdr ≠ [] ∧ hdr ≠ o then .error .differentOrg else .ok o
+  | .ok o => if headerGet hdr ≠ [] ∧ headerGet hdr ≠ o then .error .differentOrg else .ok [o]
 
-/-- `ExtractOrgIDFromHTTPRequest`: `recv` is the context the receiving request already carries
-(`r.Context()`; it may hold a stale identifier of the receiver and other values); the new context
-is derived from it: `InjectOrgID(r.Context(), orgID)`. -/
-def extractHTTP (recv : Ctx) (hdr : Bytes) : Except Err Ctx :=
-  if hdr = [] then .error .noOrgID else .ok (injectOrgID recv hdr)
+/-- `ExtractOrgIDFromHTTPRequest`: reads `Header.Get` (the FIRST value); `recv` is the context the
+receiving request already carries (`r.Context()`; it may hold a stale identifier of the receiver and
+other values); the new context is derived from it: `InjectOrgID(r.Context(), orgID)`. -/
+def extractHTTP (recv : Ctx) (hdr : List Bytes) : Except Err Ctx :=
+  if headerGet hdr = [] then .error .noOrgID else .ok (injectOrgID recv (headerGet hdr))
 
 /-- `InjectIntoGRPCRequest`: `md = none` when the key is absent from outgoing metadata. -/
 def injectGRPC (c : Ctx) (md : Option (List Bytes)) : Except Err (List Bytes) :=
@@ -185,7 +191,7 @@ def resolveWithMetadata (c : Ctx) : Except Err (Bytes × Bytes) :=
 /-- One hop: the pre-existing header / metadata on the carrier and the context found on the
 receiving side are part of the hop. -/
 inductive Hop
-  | http (existing : Bytes) (recv : Ctx)
+  | http (existing : List Bytes) (recv : Ctx)
   | grpc (existing : Option (List Bytes)) (recv : Ctx)
 
 def hop (c : Ctx) : Hop → Except Err Ctx
@@ -204,10 +210,11 @@ def chain (c : Ctx) : List Hop → Nat → Except (Err × Nat) Ctx
     | .ok c' => chain c' hs (i + 1)
 
 /-- nothing on the carrier conflicts with identifier `id`: no pre-existing header / metadata value,
-or the same one. An empty identifier cannot travel in an HTTP header (an empty header is an absent
-one). -/
+or the same one (for HTTP: the FIRST value of the pre-existing header, as `Header.Get` reads it — a
+header that is present with an empty first value counts as absent). An empty identifier cannot
+travel in an HTTP header (an empty header is an absent one). -/
 def hopClean (id : Bytes) : Hop → Bool
-  | .http ex _ => id != [] && (ex == [] || ex == id)
+  | .http ex _ => id != [] && (headerGet ex == [] || headerGet ex == id)
   | .grpc ex _ => ex == none || ex == some [id]
 
 end C20
